@@ -501,7 +501,7 @@ public:
     ComplexMatrix eigenvectors(Index nvec) const
     {
         const Index nconv = m_ritz_conv.cast<Index>().sum();
-        nvec = (std::min)(nvec, nconv);
+        nvec = (std::max)(Index(0), (std::min)(nvec, nconv));
         ComplexMatrix res(m_n, nvec);
 
         if (!nvec)
